@@ -992,7 +992,7 @@ func main() {
 	}
 	repo, out := os.Args[1], os.Args[2]
 	os.MkdirAll(out, 0755)
-	for _, f := range []string{"Facts.lean", "RangeGo.lean", "ClampGo.lean", "BackendFacts.lean", "LockFacts.lean"} {
+	for _, f := range []string{"Facts.lean", "RangeGo.lean", "ClampGo.lean", "BackendFacts.lean", "LockFacts.lean", "HandlerFacts.lean"} {
 		os.Remove(filepath.Join(out, f))
 	}
 	// each unit is generated on its own: a source change the translator does not understand costs
@@ -1001,7 +1001,7 @@ func main() {
 	for _, u := range []struct {
 		name string
 		gen  func(string, string)
-	}{{"Facts", genFacts}, {"RangeGo", genRange}, {"ClampGo", genClamp}, {"BackendFacts", genBackendFacts}, {"LockFacts", genLockFacts}} {
+	}{{"Facts", genFacts}, {"RangeGo", genRange}, {"ClampGo", genClamp}, {"BackendFacts", genBackendFacts}, {"LockFacts", genLockFacts}, {"HandlerFacts", genHandlerFacts}} {
 		func() {
 			defer func() {
 				if p := recover(); p != nil {
